@@ -3,7 +3,10 @@ package main
 import (
 	"fmt"
 	"go/ast"
+	"go/constant"
+	"go/token"
 	"go/types"
+	"strings"
 )
 
 func init() {
@@ -86,5 +89,224 @@ func ruleBothModes(c *Ctx) {
 			c.check((hasJSON && hasRESP) || hasDefault, key, sw.Pos(), "JSON and RESP arms present", fmt.Sprintf("the OutputType switch has JSON=%v RESP=%v default=%v: one output mode silently gets an empty reply", hasJSON, hasRESP, hasDefault))
 			return true
 		})
+	}
+}
+
+func init() {
+	register(&Rule{ID: "R17.string-encoder", Props: []string{"C17"}, Floor: 2,
+		Text: "the repository's own JSON string encoders (jsonString, appendJSONString — the producers the fragment typing trusts for every id, field name, payload and error text): every return is either the quote-wrapped input on the fast path or the output of encoding/json.Marshal on the slow path, and the fast path is reachable only for inputs all of whose bytes are printable ASCII other than '\"' and '\\\\' — the byte test is evaluated for all 256 byte values",
+		Run:  ruleStringEncoder})
+}
+
+// evalByteCond evaluates a boolean expression over a single byte operand (an index expression) for one byte value.
+func evalByteCond(info *types.Info, e ast.Expr, b int64) (val bool, ok bool) {
+	var num func(e ast.Expr) (int64, bool)
+	num = func(e ast.Expr) (int64, bool) {
+		e = ast.Unparen(e)
+		if tv, has := info.Types[e]; has && tv.Value != nil {
+			if v, exact := constant.Int64Val(constant.ToInt(tv.Value)); exact {
+				return v, true
+			}
+		}
+		if _, isIdx := e.(*ast.IndexExpr); isIdx {
+			return b, true
+		}
+		return 0, false
+	}
+	e = ast.Unparen(e)
+	switch x := e.(type) {
+	case *ast.UnaryExpr:
+		if x.Op == token.NOT {
+			v, ok := evalByteCond(info, x.X, b)
+			return !v, ok
+		}
+	case *ast.BinaryExpr:
+		switch x.Op {
+		case token.LOR, token.LAND:
+			l, ok1 := evalByteCond(info, x.X, b)
+			r, ok2 := evalByteCond(info, x.Y, b)
+			if !ok1 || !ok2 {
+				return false, false
+			}
+			if x.Op == token.LOR {
+				return l || r, true
+			}
+			return l && r, true
+		case token.LSS, token.GTR, token.LEQ, token.GEQ, token.EQL, token.NEQ:
+			l, ok1 := num(x.X)
+			r, ok2 := num(x.Y)
+			if !ok1 || !ok2 {
+				return false, false
+			}
+			switch x.Op {
+			case token.LSS:
+				return l < r, true
+			case token.GTR:
+				return l > r, true
+			case token.LEQ:
+				return l <= r, true
+			case token.GEQ:
+				return l >= r, true
+			case token.EQL:
+				return l == r, true
+			default:
+				return l != r, true
+			}
+		}
+	}
+	return false, false
+}
+
+func ruleStringEncoder(c *Ctx) {
+	for _, name := range []string{"jsonString", "appendJSONString"} {
+		fn := c.Func("internal/server", "", name)
+		if fn == nil {
+			c.und(name, 0, "%s not found", name)
+			continue
+		}
+		info := fn.Info()
+		fg := newFlowGraph(info, fn.Decl.Body)
+		// the string parameter
+		var sObj types.Object
+		for _, p := range fn.Decl.Type.Params.List {
+			for _, nm := range p.Names {
+				if b, ok := info.ObjectOf(nm).Type().Underlying().(*types.Basic); ok && b.Kind() == types.String {
+					sObj = info.ObjectOf(nm)
+				}
+			}
+		}
+		if sObj == nil {
+			c.und(name, fn.Decl.Pos(), "string parameter not found")
+			continue
+		}
+		// the scan loop with the byte test
+		var test *ast.IfStmt
+		var loop *ast.ForStmt
+		inspectNoLit(fn.Decl.Body, func(n ast.Node) bool {
+			fs, ok := n.(*ast.ForStmt)
+			if !ok || loop != nil {
+				return true
+			}
+			for _, st := range fs.Body.List {
+				if ifs, ok := st.(*ast.IfStmt); ok && ifs.Init == nil && ifs.Else == nil {
+					test, loop = ifs, fs
+				}
+			}
+			return true
+		})
+		if test == nil {
+			c.bad(name+"/byte-test", fn.Decl.Pos(), "no loop over the bytes of the input with an escape test: the input is emitted between quotes unexamined")
+			continue
+		}
+		// the loop visits every byte: for i := 0; i < len(s); i++
+		full := false
+		if be, ok := loop.Cond.(*ast.BinaryExpr); ok && be.Op == token.LSS {
+			if call, ok := ast.Unparen(be.Y).(*ast.CallExpr); ok && len(call.Args) == 1 {
+				if id, ok := ast.Unparen(call.Args[0]).(*ast.Ident); ok && info.ObjectOf(id) == sObj {
+					if as, ok := loop.Init.(*ast.AssignStmt); ok && len(as.Rhs) == 1 {
+						if tv, ok := info.Types[as.Rhs[0]]; ok && tv.Value != nil && tv.Value.String() == "0" {
+							if inc, ok := loop.Post.(*ast.IncDecStmt); ok && inc.Tok == token.INC {
+								full = true
+							}
+						}
+					}
+				}
+			}
+		}
+		c.check(full, name+"/scans-every-byte", loop.Pos(), "the escape test runs for i = 0 .. len(s)-1", "the loop with the escape test does not visit every byte of the input")
+		// evaluate the test for all byte values
+		var missed []string
+		undecided := false
+		for b := int64(0); b < 256; b++ {
+			v, ok := evalByteCond(info, test.Cond, b)
+			if !ok {
+				undecided = true
+				break
+			}
+			needs := b < 0x20 || b == '"' || b == '\\' || b >= 0x80
+			if needs && !v {
+				missed = append(missed, fmt.Sprintf("0x%02x", b))
+			}
+		}
+		switch {
+		case undecided:
+			c.und(name+"/byte-test", test.Pos(), "the escape test %s is not a comparison of the current byte with constants", exprStr(test.Cond))
+		case len(missed) > 0:
+			if len(missed) > 8 {
+				missed = append(missed[:8], "...")
+			}
+			c.bad(name+"/byte-test", test.Pos(), "the fast path (input copied between quotes) is taken for bytes that need escaping in JSON: %s", strings.Join(missed, " "))
+		default:
+			c.ok(name+"/byte-test", test.Pos(), true, "every control byte, '\"', '\\\\' and every byte >= 0x80 takes the slow path (evaluated for all 256 byte values)")
+		}
+		// slow path: every return inside the test's body derives from json.Marshal(s)
+		okSlow, nSlow := true, 0
+		var badAt token.Pos
+		marshalVars := map[types.Object]bool{}
+		ast.Inspect(test.Body, func(n ast.Node) bool {
+			if as, ok := n.(*ast.AssignStmt); ok && len(as.Rhs) == 1 {
+				if call, ok := ast.Unparen(as.Rhs[0]).(*ast.CallExpr); ok {
+					if f := callee(info, call); funcKey(f) == "encoding/json.Marshal" && len(call.Args) == 1 {
+						if id, ok := ast.Unparen(call.Args[0]).(*ast.Ident); ok && info.ObjectOf(id) == sObj {
+							if l, ok := as.Lhs[0].(*ast.Ident); ok {
+								marshalVars[info.ObjectOf(l)] = true
+							}
+						}
+					}
+				}
+			}
+			return true
+		})
+		fromMarshal := func(e ast.Expr) bool {
+			hit, other := false, false
+			ast.Inspect(e, func(n ast.Node) bool {
+				switch x := n.(type) {
+				case *ast.Ident:
+					o := info.ObjectOf(x)
+					if marshalVars[o] {
+						hit = true
+					} else if o == sObj {
+						other = true // the raw input
+					}
+				case *ast.CallExpr:
+					if f := callee(info, x); f != nil && f.Pkg() != nil && funcKey(f) != "encoding/json.Marshal" {
+						other = true // some other producer
+					}
+				case *ast.BasicLit:
+					if x.Kind == token.STRING || x.Kind == token.CHAR {
+						other = true
+					}
+				}
+				return true
+			})
+			return hit && !other
+		}
+		ast.Inspect(test.Body, func(n ast.Node) bool {
+			if r, ok := n.(*ast.ReturnStmt); ok {
+				nSlow++
+				if len(r.Results) != 1 || !fromMarshal(r.Results[0]) {
+					okSlow, badAt = false, r.Pos()
+				}
+			}
+			return true
+		})
+		if nSlow == 0 {
+			okSlow, badAt = false, test.Pos()
+		}
+		if badAt == token.NoPos {
+			badAt = test.Pos()
+		}
+		c.check(okSlow, name+"/slow-path-json-encoder", badAt, "strings that need escaping are encoded by encoding/json.Marshal", "a string that needs escaping is not encoded by encoding/json.Marshal (Go quoting such as strconv.Quote emits \\\\x01, \\\\a, \\\\v, \\\\U…, which are not JSON escapes): replies carrying such ids, field names or error texts are not valid JSON")
+		// every other return lies after the loop (fast path)
+		okFast := true
+		for _, r := range fg.Returns() {
+			if r.Node.Pos() >= test.Body.Pos() && r.Node.End() <= test.Body.End() {
+				continue
+			}
+			if r.Node.Pos() < loop.End() {
+				okFast = false
+			}
+		}
+		c.check(okFast, name+"/fast-path-after-scan", fn.Decl.Pos(), "the quote-wrapped copy is returned only after the whole input passed the test", "a return outside the escape test precedes the end of the scan")
 	}
 }
